@@ -460,8 +460,16 @@ impl Session {
 
         let chosen_index = self.choose_piece_index(addr).await;
         let peer = self.peers.get_mut(addr).ok_or(Error::PeerNotFound)?;
+        // Repeated Unchoke gives back piece requested so far
+        let released_index = match peer.choked {
+            true => None,
+            false => peer.piece_index,
+        };
         let cmd = peer.handle_unchoke(chosen_index, &mut self.pieces_status, &self.metainfo);
         let _ = &resp_ch.send(cmd);
+        if released_index != chosen_index {
+            self.offer_released_piece(released_index);
+        }
         Ok(true)
     }
 
